@@ -206,6 +206,9 @@ func (c *Config) handleSvcEndpointUpdate(svcName string, added, removed []*servi
 	c.Lock()
 	defer c.Unlock()
 
+	// an endpoint without address names no host; the controller would
+	// dereference the missing address.
+	added, removed = withAddress(added), withAddress(removed)
 	if len(added) == 0 && len(removed) == 0 {
 		return
 	}
@@ -255,6 +258,16 @@ func (c *Config) handleSvcEndpointUpdate(svcName string, added, removed []*servi
 	default:
 		c.emitSvcEndpointEvent(svcName, validAdded, validRemoved)
 	}
+}
+
+func withAddress(endpoints []*service.Endpoint) []*service.Endpoint {
+	res := endpoints[:0:0]
+	for _, endpoint := range endpoints {
+		if endpoint != nil && endpoint.Address != nil {
+			res = append(res, endpoint)
+		}
+	}
+	return res
 }
 
 func isContainEndpoint(endpoints []*service.Endpoint, endpoint *service.Endpoint) (int, bool) {
